@@ -184,6 +184,55 @@ static void mul_sweep(const char *name, mul_fn f, int N)
 	}
 }
 
+/* long blocks: one accumulate of source vec_i = 1 (k = 3) onto non-zero parity, counters/offsets beyond 64 KiB and 1 MiB */
+static void run_big(const struct ecimpl *im, int len, int w)
+{
+	char key[256];
+	int k = 3, rows = w, vi = 1;
+	uint8_t *dst[RMAX];
+	size_t tbl_bytes = im->gfni && im->level < 0 ? (size_t)8 * k * rows : ec_tbl_size(k, rows);
+	uint8_t *tbl = g_alloc(tbl_bytes, G_END);
+	for (int i = 0; i < k * rows; i++)
+		A[i] = (uint8_t)(0x35 + i * 23);
+	ec_tables(im, k, rows, A, tbl);
+	uint8_t *src = g_alloc(len, G_END);
+	fill_xorshift(src, len, 77);
+	uint8_t *before = malloc((size_t)len * rows);
+	for (int r = 0; r < rows; r++) {
+		dst[r] = g_alloc(len, G_END);
+		fill_xorshift(dst[r], len, 900 + r);
+		memcpy(before + (size_t)r * len, dst[r], len);
+	}
+	if (apply(im, len, k, rows, vi, tbl, src, dst)) {
+		snprintf(key, sizeof key, "%s fault len=%d k=3 rows=%d vec_i=1 big", im->name, len, rows);
+		v_violation(key, "%s", v_fault_desc());
+		nfail++;
+		free(before);
+		g_reset();
+		return;
+	}
+	v_eval();
+	for (int r = 0; r < rows; r++)
+		for (int j = 0; j < len; j++) {
+			uint8_t e = before[(size_t)r * len + j] ^ rgf_mul(A[r * k + vi], src[j]);
+			if (dst[r][j] != e) {
+				snprintf(key, sizeof key, "%s wrong len=%d k=3 rows=%d vec_i=1 big", im->name, len, rows);
+				v_violation(key, "parity %d byte %d = %02x expected %02x", r, j, dst[r][j], e);
+				nfail++;
+				r = rows;
+				break;
+			}
+		}
+	if (g_check()) {
+		snprintf(key, sizeof key, "%s wrote-outside len=%d big", im->name, len);
+		v_violation(key, "%s", g_last_damage());
+		nfail++;
+	}
+	free(before);
+	g_reset();
+	v_count("big_length_cases", 1);
+}
+
 int main(int argc, char **argv)
 {
 	v_init(argc, argv, "C13");
@@ -221,6 +270,16 @@ int main(int argc, char **argv)
 		}
 		int direct = im->level < 0;
 		int w = im->width ? im->width : 7;
+		/* long blocks */
+		{
+			static const int bigl[] = { 65536 + 17, (1 << 20) + 33, (1 << 24) + 65 };
+			for (int bi = 0; bi < (v_thorough ? 3 : 2); bi++)
+				if (v_mine(unit++)) {
+					if (v_deadline_hit() || nfail > 60)
+						goto out;
+					run_big(im, bigl[bi], w);
+				}
+		}
 		/* (a) shape sweep k=3: one accumulate onto non-zero parity per source index, every length, placements */
 		ec_coeffs(A, RMAX * 3, 1);
 		for (int len = im->minlen; len <= N; len++) {
